@@ -93,6 +93,12 @@ CLAIMED = {
   "DESIGN.md §6 C25"),
 }
 
+# further claims, one file per property: tools/claims/Cxx.json {"text":…, "note":…, "technique":…, "design_ref":…}
+import glob, os
+for _f in sorted(glob.glob(os.path.join(os.path.dirname(os.path.abspath(__file__)), "claims", "C*.json"))):
+    _d = json.load(open(_f))
+    CLAIMED[os.path.basename(_f)[:3]] = (_d["text"], _d["note"], _d["technique"], _d.get("design_ref", "DESIGN.md §10"))
+
 PENDING_REASON = "not yet built in this round (planned: DESIGN.md §6/§9); no check is claimed for it yet"
 
 def main():
